@@ -228,6 +228,16 @@ func translateDecoderReset(repo string) (map[string]string, error) {
 	fmt.Fprintf(&sb, "Definition reset_clears_developer_tables : bool := %s.\n", b(clearsDev))
 	fmt.Fprintf(&sb, "Definition integrity_drops_buffer : bool := %s.\n", b(dropsBuf))
 	fmt.Fprintf(&sb, "Definition peekfileid_bounded : bool := %s.\n", b(bounded))
+	// (*Decoder).Reset: a full reset also clears the byte counter d.n (CheckIntegrity and Next tell a clean end of stream by it)
+	pr := methodOf(f, "Decoder", "Reset")
+	if pr == nil {
+		return nil, fmt.Errorf("Decoder.Reset not found")
+	}
+	pra, prc := assignedPaths(pr.Body)
+	if !prc["d.reset"] {
+		return nil, fmt.Errorf("Decoder.Reset no longer calls d.reset(): the API model must be revisited")
+	}
+	fmt.Fprintf(&sb, "Definition public_reset_clears_n : bool := %s.\n", b(pra["d.n"]))
 	fmt.Fprintf(&sb, "(* encoder/validator.go Validate *)\nDefinition validator_rechecks_empty : bool := %s.\n", b(noFieldsReturns == 2))
 	fmt.Fprintf(&sb, "(* encoder/encoder.go compressTimestampIntoHeader *)\nDefinition encoder_tracks_last_timestamp : bool := %s.\n", b(tracksLast))
 	return map[string]string{"DecoderReset.v": sb.String()}, nil
